@@ -43,7 +43,7 @@ ASSUMPTIONS = [
     "Vector has no print_ method; its entry points are str, repr, to_string",
 ]
 BOUND = {
-    "quick": "vectors: all sequences of length 0..3 over the 'quick' rendering alphabet (<= 13 values incl. an astral character, a zero-width joiner and a right-to-left letter) of 14 dtypes; frames: all single-column frames of 0..2 rows over the same alphabets plus fixed 3-row columns, all ordered pairs of 11 column names, all ordered pairs of a 10-column menu at 0 and 3 rows, all triples of a 5-column menu at 3 rows; GeoJSON: 0..2 features x {null, Point, Polygon} x 3 property sets x {constructor, read from file}; ListOfDicts: all lists of 0..3 items over 8 items; configurations: full product (max_rows {None,1,2} x max_width {None,1,10,40} x truncate_width {None,1,2,5} | max_elements {None,0,1} | max_items {None,0,1}) x precision {0,2,6} x separator {'', ','} x PRINT_MAX_* {default, 2} x terminal {20, 80} x entry points, plus separator {apostrophe, space, no-break space} x terminal x entry points at precision 2",
+    "quick": "vectors: all sequences of length 0..3 over the 'quick' rendering alphabet (<= 13 values incl. an astral character, a zero-width joiner and a right-to-left letter) of 15 dtypes (incl. bytes that are not UTF-8 and NumPy's own StringDType()); frames: all single-column frames of 0..2 rows over the same alphabets plus fixed 3-row columns, all ordered pairs of 11 column names, all ordered pairs of a 10-column menu at 0 and 3 rows, all triples of a 5-column menu at 3 rows; GeoJSON: 0..2 features x {null, Point, Polygon} x 3 property sets x {constructor, read from file}; ListOfDicts: all lists of 0..3 items over 8 items; configurations: full product (max_rows {None,1,2} x max_width {None,1,10,40} x truncate_width {None,1,2,5} | max_elements {None,0,1} | max_items {None,0,1}) x precision {0,2,6} x separator {'', ','} x PRINT_MAX_* {default, 2} x terminal {20, 80} x entry points, plus separator {apostrophe, space, no-break space} x terminal x entry points at precision 2",
     "thorough": "vectors: all sequences of length 0..3 over the 'thorough' alphabets (<= 18 values); frames: all single-column frames of 0..2 rows over the thorough alphabets and of 3 rows over their first 10 values, all ordered pairs of 15 column names, all ordered pairs of the 10-column menu at 0..3 rows and all triples at 0 and 3 rows; GeoJSON: 0..3 features; ListOfDicts: all lists of 0..3 items over 11 items; the same full configuration product",
 }
 TIME_CAP = {"quick": 600, "thorough": 3000}
@@ -80,12 +80,15 @@ ALPHA = {
            "thorough": [None, "2020-02-29T23:59:59.999999", "1969-12-31T23:59:59", "0001-01-01T00:00:00"]},
     "tds": {"quick": [None, 1, 100000], "thorough": [None, 1, 100000, -1]},
     "tdD": {"quick": [None, 1], "thorough": [None, 1, 36500]},
-    "S": {"quick": ["", "x", "yz"], "thorough": ["", "x", "yz"]},
+    # bytes are arbitrary binary data: \xff\xfe is not valid UTF-8 (tokens are encoded as latin-1)
+    "S": {"quick": ["", "x", "yz", "\u00ff\u00fe"], "thorough": ["", "x", "yz", "\u00ff\u00fe"]},
+    # NumPy's own variable-width string type (dtype "T" = StringDType() WITHOUT the library's na_object)
+    "T": {"quick": ["", "a", "日本", "l1\nl2", LONG], "thorough": ["", "a", "日本", "l1\nl2", LONG, WIDE_LONG, "l1\r\nl2"]},
     "objx": {"quick": [None, 1, "日本", {"f": "nan"}, {"dict": {"k": 1}}, {"inst": "default"}, {"inst": "multiline"}, {"date": "2020-02-29"}],
              "thorough": [None, 1, "日本", {"f": "nan"}, {"dict": {"k": 1}}, {"inst": "default"}, {"inst": "multiline"}, {"date": "2020-02-29"},
                           {"bytes": "x"}, LONG, True, {"td": 86400}]},
 }
-KINDS = ["f8", "i8", "u1", "b1", "str", "U", "D", "s", "ms", "us", "tds", "tdD", "S", "objx"]
+KINDS = ["f8", "i8", "u1", "b1", "str", "U", "D", "s", "ms", "us", "tds", "tdD", "S", "T", "objx"]
 
 # fixed 3-row columns used by the quick tier (all rows distinct, specials mixed in one column)
 FIXED3 = {
@@ -101,7 +104,8 @@ FIXED3 = {
     "us": [[None, "2020-02-29T23:59:59.999999", "1969-12-31T23:59:59"]],
     "tds": [[None, 1, 100000]],
     "tdD": [[None, 1, 1]],
-    "S": [["", "x", "yz"]],
+    "S": [["", "x", "yz"], ["\u00ff\u00fe", "x", ""]],
+    "T": [["", "日本", "l1\nl2"], [LONG, "a", "l1\nl2"]],
     "objx": [[None, {"dict": {"k": 1}}, {"inst": "multiline"}], [{"f": "nan"}, "日本", {"inst": "default"}],
              [1, {"date": "2020-02-29"}, None], [{"inst": "multiline"}, None, None]],
 }
@@ -254,6 +258,8 @@ def decode_obj(t):
 def build_array(kind, toks):
     if kind == "S":
         return np.array([t.encode("latin-1") for t in toks], dtype="S" if toks else "S1")
+    if kind == "T":
+        return np.array(list(toks), dtype=np.dtypes.StringDType())
     if kind in ("tds", "tdD"):
         return np.array(["NaT" if t is None else t for t in toks], dtype=f"timedelta64[{kind[2:]}]")
     if kind == "objx":
